@@ -288,6 +288,12 @@ def run(out):
         out.add_tlc(name, r, histories=len(hists) - n0)
         if r.mode == 'bfs' and name == 'histories-exhaustive':
             out.exhaustive = r.exhaustive
+    # histories of three calls that the quick tier would otherwise only sample: a shared cache is filled, then the caller whose snippet
+    # table cannot be converted calls twice (both calls raise; nothing of the failed conversion may stay in the cache)
+    for first in ('s1', 's3', 's6'):
+        for a in ('num', 'plain', 'tab'):
+            hists.setdefault(((first, a), ('s10', a), ('s10', a)), None)
+            hists.setdefault(((first, a), ('s10', a), (first, a)), None)
     hl = sorted(hists)
     del hists
     gc.collect()
